@@ -27,6 +27,11 @@ fn main() {
         let text = std::fs::read_to_string(&args[3]).expect("replay file");
         let v: serde_json::Value = serde_json::from_str(&text).expect("replay json");
         engine::init_ctx(prop, Tier::Quick);
+        if v["replay"]["world"] == "panic" {
+            println!("library panic outside any guard of the harness:\n{}:{} {}\n{}", v["replay"]["file"], v["replay"]["line"], v["replay"]["message"], v["replay"]["backtrace"].as_str().unwrap_or(""));
+            println!("re-run the check to reproduce: {}", v["how_to_replay"]);
+            return;
+        }
         match prop {
             "C09" => props::c09::replay(&v),
             "C10" => props::c10::replay(&v),
